@@ -21,6 +21,7 @@ func init() {
 			"R20 every capturing segment the parser builds is remembered for the duplicate-name test before the next piece is parsed. " +
 			"R21 a parameter rule that contains '{' is refused; R22 the end-point flag is the emptiness of the suffix; R1 also: an abandoned capturing child's name gets back the value it held before the attempt. " +
 			"R23 (= C02.R21) the split point of two segment texts, for all pairs of texts. " +
+			"R24 a parameter name pasted into a regular expression as a group name holds no '>'. " +
 			"Not decided: that captured text satisfies the regexp / interceptor constraint for all inputs (semantics of regexp and of user functions).",
 		Assumptions: append([]string{"Segment.Match changes ctx.Path and the parameters only when it returns true (checked for captures by R2)"}, commonAssumptions...),
 		Run: func(c *Ctx) {
@@ -50,6 +51,7 @@ func init() {
 			ruleRuleTextHasNoBraces(c, "R21")
 			ruleEndpointIsAnEmptySuffix(c, "R22")
 			ruleSplitPointAutomaton(c, "R23")
+			ruleGroupNameIsNotCutShort(c, "R24")
 			rulePoolReleaseOnce(c, "R16")
 		},
 	})
